@@ -176,6 +176,37 @@ func c15RandStr(rng *SplitMix, alpha []string, maxLen int) string {
 }
 
 func genC15(g *Gen) {
+	// case mapping of EVERY rune of a code-point range (blocks of 64 runes per string; surrogates skipped):
+	// Latin-1, Latin Extended, Greek, Cyrillic, … (thorough: the whole BMP and samples beyond)
+	hi := rune(0x0700)
+	if g.Thorough() {
+		hi = 0x10000
+	}
+	for lo := rune(0x20); lo < hi; lo += 64 {
+		if !g.Mine() {
+			continue
+		}
+		var sb strings.Builder
+		sb.WriteString("a")
+		for r := lo; r < lo+64; r++ {
+			if r >= 0xD800 && r <= 0xDFFF {
+				continue
+			}
+			sb.WriteRune(r)
+		}
+		h := hx(sb.String())
+		c15Emit(g, []string{"lower " + h, "upper " + h, "cap " + h})
+	}
+	if g.Thorough() && g.Mine() {
+		for _, lo := range []rune{0x10400, 0x10C80, 0x118A0, 0x16E40, 0x1E900, 0x1F600} {
+			var sb strings.Builder
+			for r := lo; r < lo+64; r++ {
+				sb.WriteRune(r)
+			}
+			h := hx(sb.String())
+			c15Emit(g, []string{"lower " + h, "upper " + h, "cap " + h})
+		}
+	}
 	maxLen := 4
 	if g.Thorough() {
 		maxLen = 5
